@@ -14,14 +14,23 @@ Declared signatures (Python ints that are sizes / periods are `nat`: domain non-
 `self.n_slices` is read as a parameter by get_multiplicity / _get_const_period (its own translation n_slices_src
 is related to Model.n_slices separately)."""
 from astlib import *      # noqa: F401,F403
-from py2coq import Fn, translate_all, NAT, BOOL, STR, LIST, OPT, CNAME
+from py2coq import Fn, translate_all, NAT, BOOL, STR, DYN, LIST, OPT, PAIR, DICT, CNAME
 
 WHAT = ("dcmmeta.is_constant, is_repeating, DcmMetaExtension.n_slices, get_valid_classes, get_multiplicity, "
         "_get_const_period (function bodies, translated statement by statement by tools/tables/py2coq.py)")
 
 SRC = 'src/dcmstack/dcmmeta.py'
 CLS = 'DcmMetaExtension'
-ATTRS = [('classifications', LIST(CNAME)), ('shape', LIST(NAT)), ('slice_dim', OPT(NAT)), ('n_slices', OPT(NAT))]
+ATTRS = [('classifications', LIST(CNAME)), ('shape', LIST(NAT)), ('slice_dim', OPT(NAT)), ('n_slices', OPT(NAT)),
+         ('_preserving_changes', DICT(OPT(CNAME), LIST(CNAME)))]
+
+
+def templates():
+    # the per-key readers see the stored values through these two methods (parameters; values are dynamic JSON values)
+    return [
+        dict(src='self.get_values_and_class(_0)', holes=[STR], ret=PAIR(DYN, OPT(CNAME)), param='values_and_class'),
+        dict(src='self.get_class_dict(_0)', holes=[CNAME], ret=DICT(STR, DYN), param='class_dict'),
+    ]
 
 def specs():
     return [
@@ -34,8 +43,12 @@ def specs():
         Fn('get_multiplicity_src', SRC, 'get_multiplicity', NAT, [('classification', CNAME)], cls=CLS, self_attrs=ATTRS),
         Fn('get_const_period_src', SRC, '_get_const_period', OPT(NAT), [('src_cls', CNAME), ('dest_cls', CNAME)],
            cls=CLS, self_attrs=ATTRS),
+        Fn('global_slice_subset_src', SRC, '_global_slice_subset', DYN, [('key', STR), ('sample_base', STR), ('idx', NAT)],
+           cls=CLS, self_attrs=ATTRS, templates=templates()),
+        Fn('get_changed_class_src', SRC, '_get_changed_class', DYN, [('key', STR), ('new_class', CNAME), ('slice_dim', OPT(NAT))],
+           cls=CLS, self_attrs=ATTRS, templates=templates()),
     ]
 
 
 def emit(src):
-    return translate_all(src, specs())
+    return translate_all(src, specs(), extra_prelude='From DV Require Import Common.Jv Common.PyOps2Dyn.\n')
